@@ -11,6 +11,10 @@ EXTENDS Partial, Json, IOUtils, TLC
 
 Trace == ndJsonDeserialize("trace.ndjson")
 
+\* every unexplained event is recorded; only the first 100 with details (the state would otherwise grow
+\* quadratically when most of a trace is unexplained)
+Note(b, x) == IF Len(b) < 100 THEN Append(b, x) ELSE Append(b, [event |-> x.event])
+
 VARIABLES l, bad
 vars == <<l, bad>>
 
@@ -24,7 +28,7 @@ BadOf(ev) ==
 Init == l = 1 /\ bad = <<>>
 Next == /\ l <= Len(Trace)
         /\ LET b == BadOf(Trace[l]) IN
-           bad' = IF b = {} THEN bad ELSE Append(bad, [event |-> l, n |-> Cardinality(b), witness |-> CHOOSE c \in b : TRUE])
+           bad' = IF b = {} THEN bad ELSE Note(bad, [event |-> l, n |-> Cardinality(b), witness |-> CHOOSE c \in b : TRUE])
         /\ l' = l + 1
 Done == l = Len(Trace) + 1
 WriteOut ==
